@@ -30,6 +30,8 @@ def main():
     ap.add_argument("prop")
     ap.add_argument("variant")
     ap.add_argument("--src", default="/tmp/seed_out")
+    ap.add_argument("--tag", default="", help="suffix of the destination directory, e.g. r2 -> seeded/C05_A_r2")
+    ap.add_argument("--agent-prefix", default="/tmp/seed_", help="path prefix of the agent's worktree that demo.py may hard-code")
     a = ap.parse_args()
     src = os.path.join(a.src, a.prop, a.variant)
     patch = os.path.join(src, "patch.diff")
@@ -47,7 +49,7 @@ def main():
                 shutil.copy(os.path.join(REPO, rel), os.path.join(d, rel))
         env = dict(os.environ, PYTHONPATH=os.path.join(d, "src"), MPLBACKEND="Agg")
         # the demo may hard-code the agent's worktree path in sys.path manipulations; run a copy with it replaced
-        text = open(demo).read().replace(f"/tmp/seed_{a.prop}", d)
+        text = open(demo).read().replace(f"{a.agent_prefix}{a.prop}", d)
         demo_local = os.path.join(d, "_seed_demo.py")
         open(demo_local, "w").write(text)
         r0 = sh(["/venv/bin/python", demo_local], env=env, cwd=d, timeout=1200)
@@ -81,7 +83,7 @@ def main():
     if not ok:
         print(f"NOT CONFIRMED {a.prop}/{a.variant}")
         return 1
-    dst = os.path.join(VERIF, "seeded", f"{a.prop}_{a.variant}")
+    dst = os.path.join(VERIF, "seeded", f"{a.prop}_{a.variant}" + (f"_{a.tag}" if a.tag else ""))
     os.makedirs(dst, exist_ok=True)
     shutil.copy(patch, os.path.join(dst, "patch.diff"))
     shutil.copy(demo, os.path.join(dst, "demo.py"))
@@ -90,6 +92,8 @@ def main():
         "properties": [a.prop],
         "summary": meta.get("summary"),
         "needs": meta.get("needs"),
+        "why_a_harness_would_miss_it": meta.get("why_harness_misses") or meta.get("why_missed") or meta.get("evasion") or meta.get("why"),
+        "round": a.tag or "r1",
         "files": meta.get("files"),
         "agent_ran": meta.get("ran"),
         "confirmed_by_me": ran,
